@@ -184,8 +184,10 @@ fn case(tier: Tier, rng: &mut Rng, rep: &mut Report) {
     spec.gzip = rng.chance(0.2);
     let app_route_fmt = rng.below(5);
     let app_tree_fmt = rng.below(6);
+    let app_route_only_tree = app_tree_fmt < 5 && rng.chance(0.25);
     spec.output_plugins = vec![
-        OutputPlugin::Traversal { route: Some(FORMATS[app_route_fmt].0.into()), tree: if app_tree_fmt < 5 { Some(FORMATS[app_tree_fmt].0.into()) } else { None } },
+        // the route format may be left out when a tree format is given (tree-only output)
+        OutputPlugin::Traversal { route: if app_route_only_tree { None } else { Some(FORMATS[app_route_fmt].0.into()) }, tree: if app_tree_fmt < 5 { Some(FORMATS[app_tree_fmt].0.into()) } else { None } },
         OutputPlugin::Summary,
         OutputPlugin::Uuid,
     ];
@@ -245,7 +247,13 @@ fn case(tier: Tier, rng: &mut Rng, rep: &mut Report) {
         let mut rendered_routes: Vec<(String, Value)> = vec![];
         for (fname, f) in FORMATS.iter() {
             rep.eval();
-            let plugin = match TraversalPlugin::from_file(&geom_file, Some(*f), Some(*f)) {
+            // both outputs, or only one of them
+            let (want_route, want_tree) = match rng.below(5) {
+                3 => (false, true),
+                4 => (true, false),
+                _ => (true, true),
+            };
+            let plugin = match TraversalPlugin::from_file(&geom_file, if want_route { Some(*f) } else { None }, if want_tree { Some(*f) } else { None }) {
                 Ok(p) => p,
                 Err(e) => {
                     rep.violate("C20|TraversalPlugin::from_file|error", format!("geometry file refused: {e}"), replay);
@@ -261,7 +269,7 @@ fn case(tier: Tier, rng: &mut Rng, rep: &mut Report) {
                     continue;
                 }
                 Ok(Err(e)) => {
-                    if needs_geom && (route_touches_missing || tree_touches_missing) {
+                    if needs_geom && ((want_route && route_touches_missing) || (want_tree && tree_touches_missing)) {
                         rep.count("missing_geometry_errors_confirmed", 1);
                     } else {
                         rep.violate(&format!("C20|TraversalPlugin::process|unexpected-error|{fname}"), format!("{fname}: {e}"), replay);
@@ -269,7 +277,7 @@ fn case(tier: Tier, rng: &mut Rng, rep: &mut Report) {
                     continue;
                 }
                 Ok(Ok(())) => {
-                    if needs_geom && (route_touches_missing || tree_touches_missing) {
+                    if needs_geom && ((want_route && route_touches_missing) || (want_tree && tree_touches_missing)) {
                         rep.violate(&format!("C20|TraversalPlugin::process|missing-geometry-not-reported|{fname}"), format!("D5 {fname}: the result touches edges without stored geometry ({stored_rows} rows) but output was produced"), replay);
                         continue;
                     }
@@ -277,6 +285,11 @@ fn case(tier: Tier, rng: &mut Rng, rep: &mut Report) {
             }
             // routes: null / object / array by count
             let route_objs: Vec<Value> = match (&out["route"], routes.len()) {
+                (Value::Null, _) if !want_route => vec![],
+                (other, n) if !want_route => {
+                    rep.violate(&format!("C20|TraversalPlugin::process|route-shape|{fname}"), format!("no route format configured, {n} routes, but the route field is {}", &other.to_string().chars().take(120).collect::<String>()), replay);
+                    continue;
+                }
                 (Value::Null, 0) => vec![],
                 (v @ Value::Object(_), 1) => vec![v.clone()],
                 (Value::Array(a), n) if n > 1 && a.len() == n => a.clone(),
@@ -295,6 +308,7 @@ fn case(tier: Tier, rng: &mut Rng, rep: &mut Report) {
             }
             // trees
             let tree_vals: Vec<Value> = match (&out["tree"], trees.len()) {
+                (Value::Null, _) if !want_tree => vec![],
                 (Value::Null, 0) => vec![],
                 (v, 1) => vec![v.clone()],
                 (Value::Array(a), n) if n > 1 && a.len() == n => a.clone(),
@@ -303,13 +317,16 @@ fn case(tier: Tier, rng: &mut Rng, rep: &mut Report) {
                     continue;
                 }
             };
-            for (ti, tv) in tree_vals.iter().enumerate() {
+            for (ti, tv) in tree_vals.iter().enumerate().filter(|_| want_tree) {
                 if let Err((clause, detail)) = check_tree_render(&spec, fname, tv, &trees[ti]) {
                     rep.violate(&format!("C20|tree|{fname}|{clause}"), format!("tree {ti}: {detail}"), replay);
                     ok = false;
                 }
             }
-            if ok {
+            if ok && !want_route {
+                rep.count("tree_only_renderings_confirmed", 1);
+            }
+            if ok && want_route {
                 rendered_routes.push((fname.to_string(), out["route"].clone()));
                 rep.count("renderings_confirmed", 1);
                 rep.seen("formats", fname.to_string());
@@ -346,18 +363,42 @@ fn case(tier: Tier, rng: &mut Rng, rep: &mut Report) {
         if let Ok(Ok(v)) = resp {
             if let Some(r) = v.first() {
                 let (rf, _) = FORMATS[app_route_fmt];
-                let needs_geom = matches!(rf, "geo_json" | "wkt" | "wkb") || (app_tree_fmt < 5 && matches!(FORMATS[app_tree_fmt].0, "geo_json" | "wkt" | "wkb"));
+                let route_geom = !app_route_only_tree && matches!(rf, "geo_json" | "wkt" | "wkb");
+                let needs_geom = route_geom || (app_tree_fmt < 5 && matches!(FORMATS[app_tree_fmt].0, "geo_json" | "wkt" | "wkb"));
                 if r.get("error").is_some() {
                     if !(needs_geom && (route_touches_missing || tree_touches_missing)) && with_dest {
                         // the uuid plugin needs a destination; other errors are unexpected here
                         rep.violate("C20|CompassApp::run|unexpected-error", format!("response is an error: {}", r["error"].to_string().chars().take(200).collect::<String>()), replay);
                     }
                 } else {
-                    if needs_geom && ((matches!(rf, "geo_json" | "wkt" | "wkb") && route_touches_missing) || tree_touches_missing && app_tree_fmt < 5 && matches!(FORMATS[app_tree_fmt].0, "geo_json" | "wkt" | "wkb")) {
+                    if needs_geom && ((route_geom && route_touches_missing) || tree_touches_missing && app_tree_fmt < 5 && matches!(FORMATS[app_tree_fmt].0, "geo_json" | "wkt" | "wkb")) {
                         rep.violate("C20|CompassApp::run|missing-geometry-not-reported", "D5 the response renders geometry although rows are missing".into(), replay);
                     }
+                    // D6 a configured tree format produces the tree, whether or not a route format is configured
+                    if app_tree_fmt < 5 && !trees.is_empty() {
+                        let tf = FORMATS[app_tree_fmt].0;
+                        let tree_vals: Vec<Value> = match (&r["tree"], trees.len()) {
+                            (Value::Null, _) => vec![],
+                            (v, 1) => vec![v.clone()],
+                            (Value::Array(a), n) if a.len() == n => a.clone(),
+                            (v, _) => vec![v.clone()],
+                        };
+                        if tree_vals.len() != trees.len() {
+                            rep.violate(&format!("C20|CompassApp::run|tree-missing|{}", if app_route_only_tree { "tree-only" } else { "route+tree" }), format!("D6 tree format {tf} is configured, the search produced {} trees, the response's tree field is {}", trees.len(), r["tree"].to_string().chars().take(120).collect::<String>()), replay);
+                        } else {
+                            for (ti, tv) in tree_vals.iter().enumerate() {
+                                if let Err((clause, detail)) = check_tree_render(&spec, tf, tv, &trees[ti]) {
+                                    rep.violate(&format!("C20|CompassApp::run|tree|{tf}|{clause}"), format!("tree {ti}: {detail}"), replay);
+                                }
+                            }
+                            rep.count("application_trees_confirmed", 1);
+                        }
+                    }
+                    if app_route_only_tree && !r["route"].is_null() && !r["route"]["path"].is_null() {
+                        rep.violate("C20|CompassApp::run|route-rendered-without-a-route-format", format!("no route format configured but the response holds {}", r["route"]["path"].to_string().chars().take(120).collect::<String>()), replay);
+                    }
                     // the response's route equals the direct rendering of the same format
-                    if let Some((_, direct)) = rendered_routes.iter().find(|(f, _)| f == rf) {
+                    if let Some((_, direct)) = rendered_routes.iter().find(|(f, _)| f == rf && !app_route_only_tree) {
                         let strip = |v: &Value| -> Value {
                             match v {
                                 Value::Array(a) => Value::Array(a.iter().map(|x| x["path"].clone()).collect()),
